@@ -26,9 +26,12 @@ import (
 	"fmt"
 	"math/rand"
 	"os"
+	"math/big"
 	"path/filepath"
+	"reflect"
 	"runtime"
 	"strings"
+	"time"
 
 	"com.tuntun.rangers/node/src/common"
 	"com.tuntun.rangers/node/src/middleware/types"
@@ -46,6 +49,10 @@ type tcase struct {
 	Tv       string            `json:"tv"`
 	Cv       string            `json:"cv"`
 	Inter    string            `json:"inter"`
+	Steps    []struct {
+		O string `json:"o"`
+		F string `json:"f"`
+	} `json:"steps"`
 }
 
 // tryWhere runs f; on a panic it reports the innermost function of the node
@@ -325,6 +332,131 @@ func manyTxs(n int, rng *rand.Rand) []*types.Transaction {
 	return l
 }
 
+type hasher interface{ GenHash() common.Hash }
+
+// freshCopy builds a new object with the same exported field values (unexported state is not
+// copied): "a freshly built object with the same fields".
+func freshCopy(obj interface{}) interface{} {
+	v := reflect.ValueOf(obj).Elem()
+	n := reflect.New(v.Type())
+	for i := 0; i < v.NumField(); i++ {
+		if v.Type().Field(i).PkgPath == "" {
+			n.Elem().Field(i).Set(v.Field(i))
+		}
+	}
+	return n.Interface()
+}
+
+// mutateField gives field name of the object a new value of its type.
+func mutateField(obj interface{}, name string, rng *rand.Rand) {
+	f := reflect.ValueOf(obj).Elem().FieldByName(name)
+	if !f.IsValid() {
+		vutil.Fatalf("no field %q", name)
+	}
+	var nv interface{}
+	switch f.Interface().(type) {
+	case common.Hash:
+		nv = cHash("typ", rng)
+	case uint64:
+		nv = rng.Uint64()>>1 | 1
+	case int32:
+		nv = int32(1 + rng.Intn(1<<30))
+	case string:
+		nv = cStr("typ", rng) + cStr("typ", rng)
+	case []byte:
+		nv = cBytes("typ", rng)
+	case time.Time:
+		nv = cTime("typ", rng)
+	case *big.Int:
+		nv = cBig("typ", rng)
+	case map[string]uint64:
+		nv = cMap("typ", rng)
+	case []common.Hashes:
+		nv = cHashes2("typ", rng)
+	case []common.Hash:
+		nv = cHashes("typ", rng)
+	case *common.Sign:
+		nv = cSign("typ", rng)
+	case []types.UserData:
+		nv = cSubTx("typ", rng)
+		if rng.Intn(2) == 0 {
+			nv = cSubTx("one", rng)
+		}
+	default:
+		vutil.Fatalf("mutateField: unsupported type of %s", name)
+	}
+	f.Set(reflect.ValueOf(nv))
+}
+
+// lifeEvent: the life of ONE object (header, transaction, group header): GenHash calls (H), field
+// changes (M), value copies (C), Hash := GenHash() (S), serialise + parse (W).  After every H/S the
+// digest of the live object is logged next to the digest of a freshly built object with the same
+// field values.
+func lifeEvent(c *tcase, rng *rand.Rand) {
+	var obj interface{}
+	switch c.Kind {
+	case "header":
+		obj = buildHeader(classes{}, rng)
+	case "tx":
+		obj = buildTx(classes{}, rng)
+	case "gheader":
+		obj = buildGroup(classes{}, rng).Header
+	default:
+		vutil.Fatalf("hashseq: unknown kind %q", c.Kind)
+	}
+	steps := make([]interface{}, 0, len(c.Steps))
+	setHash := ""
+	p, where, _ := tryWhere(func() {
+		for _, st := range c.Steps {
+			rec := map[string]interface{}{"o": st.O, "f": st.F, "h": "", "hf": "", "res": "", "stored": ""}
+			switch st.O {
+			case "H":
+				rec["h"] = pHash(obj.(hasher).GenHash())
+				rec["hf"] = pHash(freshCopy(obj).(hasher).GenHash())
+			case "M":
+				mutateField(obj, st.F, rng)
+			case "C":
+				v := reflect.ValueOf(obj).Elem()
+				n := reflect.New(v.Type())
+				n.Elem().Set(v) // a value copy, as `bh2 := *bh` does
+				obj = n.Interface()
+			case "S":
+				h := obj.(hasher).GenHash()
+				reflect.ValueOf(obj).Elem().FieldByName("Hash").Set(reflect.ValueOf(h))
+				setHash = pHash(h)
+				rec["h"] = setHash
+				rec["hf"] = pHash(freshCopy(obj).(hasher).GenHash())
+			case "W":
+				var o outcome
+				switch c.Kind {
+				case "header":
+					o = doPass("header", obj)
+				case "tx":
+					o = doPass("tx", obj)
+				default:
+					g := buildGroup(classes{}, rng)
+					g.Header = obj.(*types.GroupHeader)
+					o = doPass("group", g)
+					if o.res == "object" {
+						o.v = o.v.(*types.Group).Header
+					}
+				}
+				rec["res"] = o.res
+				if o.res == "object" {
+					obj = o.v
+					rec["stored"] = pHash(reflect.ValueOf(obj).Elem().FieldByName("Hash").Interface().(common.Hash))
+					rec["h"] = pHash(obj.(hasher).GenHash())
+					rec["hf"] = pHash(freshCopy(obj).(hasher).GenHash())
+				}
+			default:
+				vutil.Fatalf("hashseq: unknown step %q", st.O)
+			}
+			steps = append(steps, rec)
+		}
+	})
+	emit(map[string]interface{}{"event": "Life", "kind": c.Kind, "src": "tlc", "steps": steps, "set": setHash, "panic": p, "where": where})
+}
+
 // concurrent: K goroutines serialise and parse DIFFERENT values of one kind at the same time, each
 // keeping its bytes across the others' calls.  Every goroutine compares what it gets with what the
 // same calls gave sequentially beforehand; only differing results are emitted - as RoundTrip events
@@ -585,6 +717,8 @@ func main() {
 		switch c.Op {
 		case "rt":
 			roundTrip(c.Kind, buildKind(c.Kind, classes(c.Cls), rng), "tlc", c.Cls)
+		case "hashseq":
+			lifeEvent(c, rng)
 		case "retain":
 			a := buildKind(c.Kind, classes(c.Cls), rng)
 			roundTripRetained(c.Kind, a, "retain", c.Cls, c.Inter, buildKind(c.Kind, randClasses(c.Kind, rng), rng))
